@@ -1,3 +1,5 @@
 pub mod brokersim;
 pub mod codec;
 pub mod world;
+pub mod migworld;
+pub mod lin;
